@@ -5,3 +5,4 @@ pub mod tokens;
 pub mod access;
 pub mod timelock;
 pub mod rwa;
+pub mod nft;
